@@ -5,6 +5,7 @@ package clos
 import (
 	"sort"
 	"strconv"
+	"strings"
 	"unsafe"
 
 	"github.com/ohler55/slip"
@@ -84,8 +85,11 @@ func (obj *StandardObject) setSlot(s *slip.Scope, sd *SlotDef, value slip.Object
 			slip.TypePanic(s, depth, sd.name, value, slip.ObjectString(sd.argType))
 		}
 	}
-	if sd.classStore {
-		obj.Type.Vars()[sd.name] = value
+	// The definition with the initarg or initform is not always the most
+	// specific definition of the slot, which is the one that decides where
+	// the slot is.
+	if owner := obj.Type.classSlotOwner(sd.name); owner != nil {
+		owner.Vars()[sd.name] = value
 	} else {
 		obj.vars[sd.name] = value
 	}
@@ -157,8 +161,14 @@ func (obj *StandardObject) Class() slip.Class {
 // SlotNames returns a list of the slots names for the instance.
 func (obj *StandardObject) SlotNames() []string {
 	names := obj.HasSlots.SlotNames()
-	for k := range obj.Type.Vars() {
+	own := obj.Type.Vars()
+	for k := range own {
 		names = append(names, k)
+	}
+	for _, k := range obj.Type.classSlotNames() {
+		if _, has := own[k]; !has {
+			names = append(names, k)
+		}
 	}
 	return names
 }
@@ -166,7 +176,11 @@ func (obj *StandardObject) SlotNames() []string {
 // SlotValue return the value of an instance variable.
 func (obj *StandardObject) SlotValue(sym slip.Symbol) (value slip.Object, has bool) {
 	if value, has = obj.HasSlots.SlotValue(sym); !has {
-		value, has = obj.Type.SlotValue(sym)
+		if owner := obj.Type.classSlotOwner(strings.ToLower(string(sym))); owner != nil {
+			value, has = owner.SlotValue(sym)
+		} else {
+			value, has = obj.Type.SlotValue(sym)
+		}
 	}
 	return
 }
@@ -174,7 +188,11 @@ func (obj *StandardObject) SlotValue(sym slip.Symbol) (value slip.Object, has bo
 // SetSlotValue sets the value of an instance variable.
 func (obj *StandardObject) SetSlotValue(sym slip.Symbol, value slip.Object) (has bool) {
 	if has = obj.HasSlots.SetSlotValue(sym, value); !has {
-		has = obj.Type.SetSlotValue(sym, value)
+		if owner := obj.Type.classSlotOwner(strings.ToLower(string(sym))); owner != nil {
+			has = owner.SetSlotValue(sym, value)
+		} else {
+			has = obj.Type.SetSlotValue(sym, value)
+		}
 	}
 	return
 }
